@@ -305,6 +305,10 @@ pub fn run(args: Args) -> ! {
                 let f = Failure::new("build", format!("configuration `{}` (features {}) does not build: {e}", c.name, c.features), json!({"config": c.name, "features": c.features}));
                 rep.violation("build", None, &f);
             }
+            Err(e) if e.starts_with("battery run failed") => {
+                let f = Failure::new("crash", format!("configuration `{}` (features {}) crashes on the battery: {e}", c.name, c.features), json!({"config": c.name, "features": c.features}));
+                rep.violation("crash", None, &f);
+            }
             Err(e) => fault(&format!("configuration {}: {e}", c.name)),
             Ok(out) => {
                 let mut m = BTreeMap::new();
